@@ -169,11 +169,15 @@ func checkC05(c C05Case) *Fail {
 			rec.Class("conversion-not-documented")
 			continue
 		case ref.MustError:
+			// the value has no counterpart in the target version (integer out of range, text that
+			// is not a number, union case that does not exist there): docs/cpp/evolution.md,
+			// "Runtime errors". Completing the run means something else was delivered in its place.
+			rec.EvalN(1)
 			if res.OK {
-				rec.Class("documented-error-case-did-not-error")
-			} else {
-				rec.Class("documented-error-case-errored")
+				return failf("c05", "a value that has no counterpart in the target version was converted silently instead of raising the documented runtime error (%s)\n%s", e.why, ctx())
 			}
+			rec.Class("documented-error-case-errored")
+			rec.Nontrivial(core.Hash(versionsText(c), c.Values, k, "err"))
 			continue
 		}
 		rec.EvalN(1)
